@@ -293,8 +293,8 @@ def run_property(pid, level, units, explanation, trusted_base, min_obligations=1
         "canaries": {"total": len(can), "refuted_as_required": sum(1 for r in can if r["status"] == "refuted")},
         "conformance_samples": len(conf),
         "bounded_stand_ins": [{"name": r["name"], "bound": r["backend"], "status": r["status"]} for r in bnd],
-        "functions_under_contract": sorted(functions),
-        "source_sha256_16": source_hashes(functions),
+        "functions_under_contract": sorted(set(functions) | set(f for r in obl for f in r.get("functions", []))),
+        "source_sha256_16": source_hashes(dict(list(functions.items()) + [(f, "ciderpress/" + f.split(":")[0]) for r in obl for f in r.get("functions", []) if f.startswith("lib/")])),
         "samples": samples,
         "undecided_list": [r["name"] for r in und],
         "known_findings": [r["name"] for r in obl if r["status"] == "refuted" and known(r) is not None],
